@@ -476,9 +476,11 @@ Definition exn_eqb (a b : exn) : bool :=
   | _, _ => false
   end.
 
-(* what the harness saw: a datetime cell is recorded without its value *)
+(* what the harness saw: a datetime cell is recorded without its value; OSame stands for the
+   reference outcome of the case (the original row for the plain decode, the plain decode's
+   outcome for a mutated record) so that generated files stay small *)
 Inductive ocell := OVal (v : mval) | ODate.
-Inductive outcome := OOk (l : list ocell) | ORaise (e : exn).
+Inductive outcome := OOk (l : list ocell) | ORaise (e : exn) | OSame.
 
 Definition cell_matches (c : cell) (o : ocell) : bool :=
   match c, o with
@@ -493,6 +495,8 @@ Fixpoint cells_match (cs : list cell) (os : list ocell) : bool :=
   | c :: r, o :: s => cell_matches c o && cells_match r s
   | _, _ => false
   end.
+
+Definition resolve (ref o : outcome) : outcome := match o with OSame => ref | _ => o end.
 
 Definition outcome_matches (m : result (list cell)) (o : outcome) : bool :=
   match m, o with
@@ -516,24 +520,32 @@ Fixpoint set_nth (l : bytes) (i : nat) (f : N -> N) : bytes :=
   | b :: r, S j => b :: set_nth r j f
   end.
 
+Definition flip_at (r : bytes) (i b : N) : bytes := set_nth r (N.to_nat i) (fun x => flip_bit x b).
+
 Inductive mutation :=
 | Tear (k : N)                    (* keep the first k bytes *)
 | TearAll                         (* every k < len: all observed as DataError *)
 | Extend (s : bytes)
-| Flip (byte : N) (bit : N).
+| Flip (byte : N) (bit : N)
+| FlipMask (mask : N).            (* the 48 single-bit changes of bytes 0..5; bit 8*byte+bit of the mask set =
+                                     observed DataError, clear = observed the reference outcome *)
 
 Definition apply_mut (r : bytes) (m : mutation) : bytes :=
   match m with
   | Tear k => firstn (N.to_nat k) r
-  | TearAll => r
   | Extend s => r ++ s
-  | Flip i b => set_nth r (N.to_nat i) (fun x => flip_bit x b)
+  | Flip i b => flip_at r i b
+  | TearAll | FlipMask _ => r
   end.
 
-Definition mut_matches (r : bytes) (mo : mutation * outcome) : bool :=
+Definition mut_matches (ref : outcome) (r : bytes) (mo : mutation * outcome) : bool :=
   match fst mo with
   | TearAll => forallb (fun k => is_data_error (decode_row (firstn k r))) (seq 0 (length r))
-  | m => outcome_matches (decode_row (apply_mut r m)) (snd mo)
+  | FlipMask mask =>
+      forallb (fun idx => outcome_matches (decode_row (flip_at r (idx / 8) (idx mod 8)))
+                                          (if N.testbit mask idx then ORaise DataError else ref))
+              (map N.of_nat (seq 0 48))
+  | m => outcome_matches (decode_row (apply_mut r m)) (resolve ref (snd mo))
   end.
 
 (* compact literals for the few huge generated values *)
@@ -558,19 +570,21 @@ Definition row_case := (N * list mval * enc_obs * outcome * list (mutation * out
 
 Definition c01_check_row (c : row_case) : bool :=
   let '(ts, row, enc, dec, muts) := c in
+  let dec := resolve (OOk (map OVal row)) dec in
   match encode_row ts row, enc with
-  | Ok r, EBytes r' => bytes_eqb r r' && outcome_matches (decode_row r') dec && forallb (mut_matches r') muts
-  | Ok r, EHash n h => (len r =? n) && (digest r =? h) && outcome_matches (decode_row r) dec && forallb (mut_matches r) muts
+  | Ok r, EBytes r' => bytes_eqb r r' && outcome_matches (decode_row r') dec && forallb (mut_matches dec r') muts
+  | Ok r, EHash n h => (len r =? n) && (digest r =? h) && outcome_matches (decode_row r) dec && forallb (mut_matches dec r) muts
   | Raise e, ERaise e' => exn_eqb e e'
   | _, _ => false
   end.
 
 Definition c01_show_row (c : row_case) :=
   let '(ts, row, enc, dec, muts) := c in
+  let dec := resolve (OOk (map OVal row)) dec in
   match encode_row ts row with
   | Ok r => (if len r <? 4096 then Ok r else Ok [len r; digest r],
              Some (match decode_row r with Ok cs => if len r <? 4096 then Ok cs else Ok [] | Raise e => Raise e end,
-                   map (fun mo => (fst mo, mut_matches r mo)) muts))
+                   map (fun mo => (fst mo, mut_matches dec r mo)) muts))
   | Raise e => (Raise e, None)
   end.
 
